@@ -1,6 +1,6 @@
 (* C08 Package-type rules: pypi and nuget names, maven namespace, others untouched *)
 Load "coq/props/Hdr".
-From PM Require Import Lower2 Pypi C08rel C15 More.
+From PM Require Import Lower2 Pypi C08rel C15 More Alpha.
 Lemma src_cfg_ok : cfg_ok cfg. Proof. sc. Qed.
 (* nuget: every character replaced by its Unicode lower-case mapping, nothing else changed *)
 Theorem C08_nuget : forall n, utf8_valid n = true -> lowercase_str cfg n = spec_lower cfg n.
@@ -42,3 +42,7 @@ Print Assumptions C08_builder_applies_rule.
 Theorem C08_table_lookup_is_complete : forall c l, In (c, l) (lower_tbl cfg) -> lower_c cfg c = l.
 Proof. intros c l H. unfold lower_c. rewrite (tbl_find_complete cfg (lower_tbl cfg) c l); [reflexivity|vm_compute; reflexivity|exact H]. Qed.
 Print Assumptions C08_table_lookup_is_complete.
+(* the pypi separators are '-', '_' and '.' *)
+Theorem C08_pypi_separators_are_the_documented_ones : forall c, is_dash cfg c = existsb (fun b => N.eqb (bn b) c) doc_dash_chars.
+Proof. apply is_dash_is_documented. vm_compute. reflexivity. Qed.
+Print Assumptions C08_pypi_separators_are_the_documented_ones.
